@@ -39,7 +39,9 @@ impl SliceItem {
     pub(crate) fn index_range(&self, dim_size: usize) -> IndexRange {
         let range = match *self {
             SliceItem::Range(range) => range,
-            SliceItem::Index(idx) => SliceRange::new(idx, Some(idx + 1), 1),
+            // nb. For the last index (-1) the end is the end of the dimension,
+            // not `idx + 1 == 0`, which would refer to the first index.
+            SliceItem::Index(idx) => SliceRange::new(idx, (idx != -1).then_some(idx + 1), 1),
         };
         range.index_range(dim_size)
     }
